@@ -17,8 +17,9 @@ FLOAT_DTYPES = {'float32', 'float64', 'float'}
 
 
 class DType:
-    def __init__(self, name):
+    def __init__(self, name, order='='):
         self.name = canon_dtype(name)
+        self.order = order            # '=' native (little-endian here) | '>' big-endian
 
     def __repr__(self):
         return f'dtype({self.name})'
